@@ -45,6 +45,10 @@ type Scenario struct {
 	Prepare  func() // optional, once before exploring (e.g. computing the simple-mode reference)
 	Cleanup  func()
 	MaxExecs int64
+	// Preempt selects the second explorer E2: preemption-bounded search (switching away from a thread that could
+	// continue costs 1, every other choice is free) with visited-state pruning on the canonical state key.
+	// Bound is then the preemption bound. Used for small drivers (one worker per stage) in addition to E1.
+	Preempt bool
 	// DivergenceIsViolation: signature under which a replay divergence is reported instead of aborting (C13 only)
 	DivergenceIsViolation string
 }
@@ -58,6 +62,8 @@ var scenarioByName = map[string]func(name string) *Scenario{}
 var freeParts = map[string]func(c *rep.Ctx){}
 
 type explorer struct {
+	visited  map[uint64]int // E2: state key -> smallest cost at which it was expanded
+	pruned   int64
 	noShard  bool // explore every level-1 subtree in this process (the caller shards over scenarios instead)
 	c        *rep.Ctx
 	states   map[uint64]struct{}
@@ -127,6 +133,9 @@ func (e *explorer) explore(sc *Scenario, policy int) {
 		cost   int
 	}
 	stack := []item{{nil, 0}}
+	if sc.Preempt {
+		e.visited = map[uint64]int{} // per scenario and policy
+	}
 	var execs int64
 	level1 := 0
 	for len(stack) > 0 {
@@ -208,6 +217,48 @@ func (e *explorer) explore(sc *Scenario, policy int) {
 						dev*1000+len(choices), mcReplay{"mc", sc.Prop, sc.Name, policy, choices, sc.Workers})
 				}
 			}
+		}
+		if sc.Preempt {
+			// E2: walk the new part of this execution front to back; stop at the first state already expanded at no
+			// greater cost (everything behind it has been explored from there)
+			cost := it.cost
+			for i := len(it.prefix); i < len(out.Points); i++ {
+				p := out.Points[i]
+				if prev, ok := e.visited[p.Key]; ok && prev <= cost {
+					e.pruned++
+					break
+				}
+				e.visited[p.Key] = cost
+				for alt := 0; alt < p.N; alt++ {
+					if alt == p.Chosen {
+						continue
+					}
+					ac := 0
+					if p.NCur > 0 && alt >= p.NCur {
+						ac = 1 // the running thread could have continued: this is a preemption
+					}
+					if cost+ac > sc.Bound {
+						continue
+					}
+					if len(it.prefix) == 0 && !e.noShard {
+						mine := level1%c.NShards == c.Shard
+						level1++
+						if !mine {
+							continue
+						}
+					}
+					np := make([]int, i+1)
+					for j := 0; j < i; j++ {
+						np[j] = out.Points[j].Chosen
+					}
+					np[i] = alt
+					stack = append(stack, item{np, cost + ac})
+				}
+				if p.NCur > 0 && p.Chosen >= p.NCur {
+					cost++
+				}
+			}
+			continue
 		}
 		// children: one more deviation at any later point
 		if it.cost >= sc.Bound {
